@@ -21,7 +21,7 @@ PROPS = {
                 quick_cfgs=["default", "flushy", "flushy2", "manual", "valsep", "oldfmv"]),
     "C04": dict(profile="C04", checked=["view"], gen=["pt", "rk", "mt", "it", "ig"], itercls="view",
                 quick_cfgs=["default", "flushy", "flushy2", "manual", "nolazy"]),
-    "C05": dict(profile="C05", checked=["batch", "batchleak"], gen=None,
+    "C05": dict(profile="C05", checked=["batch", "batchleak", "view"], gen=None,
                 quick_cfgs=["default", "flushy", "manual", "bigvals"]),
     "C08": dict(profile="C08", checked=["rk"], gen=["rk", "rk", "pt", "it", "mt"], itercls="rk",
                 quick_cfgs=["default", "flushy", "flushy2", "manual", "nolazy", "oldfmv"]),
